@@ -41,6 +41,8 @@ enum Op {
 struct Case {
   op: Op,
   pcase: PCase,
+  /// length of one tick in ns (1, or 0.7 s / 1 s + 1 ns: windows and gaps then cross the second boundary unevenly)
+  unit: u64,
 }
 
 fn gen_case(c: &mut dyn Choices) -> Case {
@@ -125,7 +127,9 @@ fn gen_case(c: &mut dyn Choices) -> Case {
       script.push(Step::Emit(0, if c.pick(4) == 0 { Ev::Er(E(5)) } else { Ev::C }));
     }
   }
-  Case { op, pcase: PCase { node, kinds: vec![IKind::Subject], script, mode: SchedMode::Fifo, threads } }
+  // (appended pick) a quarter of the cases measure time in units of 0.7 s or 1 s + 1 ns
+  let unit = *c.one_of(&[1u64, 1, 1, 1, 1, 1, 700_000_000, 1_000_000_001]);
+  Case { op, pcase: PCase { node, kinds: vec![IKind::Subject], script, mode: SchedMode::Fifo, threads }, unit }
 }
 
 // ------------------------------------------------------------ model --------
@@ -554,6 +558,7 @@ fn run_case(c: &mut dyn Choices, ctx: &Ctx) -> Outcome {
     return Outcome { labels: vec!["excluded-known"], ..Outcome::discard() };
   }
   let (_, nt) = simulate(&case, true);
+  crate::vtime::set_unit(case.unit);
   let res = run_pcase(&case.pcase, false);
   let mut labels = vec![op_name(&case.op)];
   if case.pcase.threads {
@@ -571,6 +576,7 @@ fn run_case(c: &mut dyn Choices, ctx: &Ctx) -> Outcome {
   };
   let desc = if ctx.want_desc || matches!(verdict, Verdict::Violation { .. }) {
     let mut j = pcase_json(&case.pcase);
+    j["tick_ns"] = json!(case.unit);
     j["delivered"] = res.as_ref().map(|t| json!(t.recs.iter().map(|r| format!("{}@t={}", ev_short(&r.ev), r.vt)).collect::<Vec<_>>())).unwrap_or_else(|m| json!({ "panic": m }));
     j["model"] = json!(simulate(&case, true).0.iter().map(|(t, e)| format!("{}@t={}", ev_short(e), t)).collect::<Vec<_>>());
     Some(j)
